@@ -23,7 +23,7 @@ FLOORS = {"quick": {"next": 20000, "previous": 20000, "first_of": 20000, "last_o
           "thorough": {"next": 200000, "previous": 200000, "first_of": 200000, "last_of": 200000, "nth_of": 500000}}
 REQUIRED_HOOKS = ["DateTime.next", "DateTime.previous", "DateTime.first_of", "DateTime.last_of", "DateTime.nth_of",
                   "Date.next", "Date.previous", "Date.first_of", "Date.last_of", "Date.nth_of"]
-TECHNIQUE = "runtime contracts on the ten weekday-navigation methods against a date-arithmetic oracle (ordinals) plus the start-of-day clauses rendered by the tz-database oracle"
+TECHNIQUE = "runtime contracts on the ten weekday-navigation methods against a date-arithmetic oracle (ordinals) plus the start-of-day clauses rendered by the tz-database oracle; weekday operand rotates WeekDay/int/calendar.Day; same-shape leap/common units visited in one process (history workload); shards run under rotating calendar.setfirstweekday()"
 LEVEL_TEXT = ("every observed next/previous/first_of/last_of/nth_of call on DateTime and Date is judged against ordinal date arithmetic; "
               "every month shape x weekday x n in 1..54 x unit, zones including days with a skipped or repeated midnight and values of "
               "both provenances; held on what was observed")
